@@ -409,9 +409,13 @@ def r4_caches_and_permutations(ctx):
            key="C14-R4|permute-twice-scan")
 
 
+from ..through_time import make_rule as _mk_tt
+_through_time = _mk_tt("C14")
+
 RULES = [
     ("C14-R1", r1_complement),
     ("C14-R2", r2_genetic_code),
     ("C14-R3", r3_strand_selectors),
     ("C14-R4", r4_caches_and_permutations),
+    ("C14-T1", _through_time),
 ]
